@@ -225,7 +225,7 @@ func describeContHistory(h storgen.ContHistory) any {
 }
 
 func TestC20(t *testing.T) {
-	rec := evid.Start(t, "C20", "model-steered random operation sequences (88% start with a transaction that builds a multi-slab array (250–660 elements) and dictionary (150–250 entries); 80% of the in-place executions start, right after the reload, with a READ-ONLY query through the borrowed reference — contains/firstIndex of the first/middle/last/an absent element, index, slice, length, containsKey, d[k] — before anything else has loaded the slabs; every history has ≥ 1 invalid-index operation; quick: ≤ 12 executions × ≤ 13 operations; thorough: ≤ 30 × 12, i.e. up to 360 operations, bulk operations count once) on a variable-sized array [E], a constant-sized array [E; 8] and a "+
+	rec := evid.Start(t, "C20", "model-steered random operation sequences (88% start with a transaction that builds a multi-slab array (250–660 elements) and dictionary (150–250 entries); 80% of the in-place executions start, right after the reload, with a READ-ONLY query through the borrowed reference — contains/firstIndex of the first/middle/last/an absent element, index, slice, length, containsKey, d[k] — before anything else has loaded the slabs; every history has ≥ 1 invalid-index operation; quick: ≤ 12 executions × ≤ 11 operations; thorough: ≤ 30 × 12, i.e. up to 360 operations, bulk operations count once) on a variable-sized array [E], a constant-sized array [E; 8] and a "+
 		"dictionary {K: E} kept in account storage; E ∈ {Int (every 13th and a quarter of the single inserts HUGE: ≥ 8000 bits, a non-inlinable scalar), String (2–5, 200 and 600 bytes), struct with nested array, [Int] (0–5 and 130 elements)}, K ∈ {Int, String} (every 17th key non-inlinable: huge Int / 300-byte String); whole-container copy/transfer forms (let copy, argument + return, dereference copy, fresh small [E] with a big element copied and passed, load/save in later transactions) on single-slab and multi-slab containers; operations: append, appendAll, insert, "+
 		"remove, removeFirst, removeLast, bulk removal, index read/write, slice, reverse, concat, filter, map (generated pure closures), contains, firstIndex, toConstantSized/toVariableSized; dictionary insert, "+
 		"remove, index read/write/nil-assignment, containsKey, bulk insert/remove, keys/values/forEachKey/for-in enumeration (all four must agree), forEachKey with early stop; valid and invalid indices; bulk sizes "+
@@ -249,7 +249,7 @@ func TestC20(t *testing.T) {
 	}
 
 	rapid.Check(t, func(rt *rapid.T) {
-		hist := storgen.GenContHistory(storgen.FromRapid(rt), storgen.ContGenConfig{MaxExecs: evid.N(12, 30), MaxOps: 12})
+		hist := storgen.GenContHistory(storgen.FromRapid(rt), storgen.ContGenConfig{MaxExecs: evid.N(12, 30), MaxOps: evid.N(10, 12)})
 		var facts contFacts
 		for _, eng := range host.Engines {
 			msg, f := runContHistory(hist, eng, false, nil)
